@@ -301,6 +301,18 @@ def sgx_variants(rng):
     d = copy.deepcopy(doc)
     d["elements"][0]["signature"] = v2.flip_hex(rng, d["elements"][0]["signature"])
     yield ("broken-quote-signature", d, pem_of(root_b64), pkj, False, None)
+    # genuine device with no QE auth data at all
+    d0, r0, s0, q0 = build(good, auth_len=0)
+    yield ("genuine-empty-auth", d0, pem_of(r0), pkj, True, (good, q0))
+    # an attacker's attestation key (declaring no auth data) vouching for its own quote
+    atk = v2.new_key(rng)
+    for base, lbl in ((doc, "attacker-key-empty-auth"), (d0, "attacker-key-empty-auth-on-empty")):
+        d = copy.deepcopy(base)
+        d["elements"][1]["key"] = (b"\x04" + v2.raw_xy(atk.public_key())).hex()
+        d["elements"][1]["auth_data"] = ""
+        qq = bytes.fromhex(d["elements"][0]["message"])
+        d["elements"][0]["signature"] = v2.sign_digest(atk, _h.sha256(qq).digest()).hex()
+        yield (lbl, d, pem_of(root_b64 if base is doc else r0), pkj, False, None)
     for label, custom, ok in (
             ("custom-truncated", good[:-1], False), ("custom-extended", good + b"\x00", False),
             ("custom-foreign-header", b"POWHSX:5.4::" + good[12:], False),
